@@ -1,143 +1,122 @@
 /-
 C11 — Graph construction keeps topology invariants under any call sequence.
 
-Property theorems over `ForML.Model.Graph` (helper lemmas are `private`).  Reading of the statement:
-  * `Inv`      = (I1) one publisher per input port, (I2) no self-loop, (I3) apply xor train, (I4) one trained
-                 member per group, (I5) trained workers publish nothing, (I6) `_PORTS` = ports having an edge,
-                 (I7) publishers exist / subscribers are workers;
-  * atomicity  = a call answering an error leaves the state as it was;
-  * cycles     = `Segment(head)` succeeds only if no node reachable from the head lies on a cycle;
-  * transparency: a subscription published by a placeholder reaches every registered publisher.
-The statements at full strength are false of the code that exists (D12, D13 and the failing calls routed
-through a `Future`): `_full` + `_counterexample` + `_partial`.
+Property theorems over `ForML.Model.Graph` (the model of forml's construction API with
+`fixes/C11-atomic-topology-errors.diff` applied); helper lemmas live in `ForML/Lemmas/C11*.lean`.
+Reading of the statement:
+  * `Wf`       = (I2) no self-loop, (I3) apply xor train, (I4) one trained member per group, (I5) trained workers
+                 publish nothing, (I6) `_PORTS` = ports having an edge, (I7) publishers exist / subscribers are
+                 workers, (I8) registrations sit on placeholders;  `Inv` = (I1) one publisher per input port ∧ `Wf`;
+  * atomicity  = a call answering an error leaves the state exactly as it was;
+  * transparency = what an output port holds is held by everything registered upstream of it (complete) and the
+                 holders of one subscription form one chain of registrations (sound);
+  * cycles     = a successfully auto-traced segment has no walk from the head that returns to a passed node;
+  * placeholders: a validated segment contains no placeholder (but a placeholder tail).
+`Wf` and atomicity hold for every call sequence, whatever the route (workers, placeholders, failed calls,
+retries).  (I1) is false of the code that exists when two publishers are registered on one placeholder port
+(finding C11-F1): `_full` + `_counterexample` + `_partial`.  The placeholder clause is false when the head
+placeholder merely compares equal to the tail worker (finding C11-F2): `_full` + `_counterexample` + `_partial`.
 -/
-import ForML.Model.Graph
+import ForML.Lemmas.C11Closure
+import ForML.Lemmas.C11Cycle
 
 namespace ForML.Graph
 
 /-! ### helper lemmas -/
 
-private theorem mem_inputs (g : G) (s : Sub) : s.port ∈ inputs g s.node ↔ s ∈ g.ports := by
-  unfold inputs
-  simp only [List.mem_map, List.mem_filter, decide_eq_true_eq]
-  constructor
-  · rintro ⟨x, ⟨hx, hn⟩, hp⟩
-    have : x = s := by cases x; cases s; simp_all
-    exact this ▸ hx
-  · intro h; exact ⟨s, ⟨h, rfl⟩, rfl⟩
+private theorem worker_or_future (g : G) (n : Nat) (h : n < g.nodes.length) :
+    isWorker g n = true ∨ isFuture g n = true := by
+  unfold isWorker isFuture
+  have : g.nodes[n]? = some g.nodes[n] := List.getElem?_eq_getElem h
+  rw [this]
+  rcases g.nodes[n] with ⟨k, a, b⟩
+  cases k <;> simp
 
-private theorem mem_inputs' (g : G) (n : Nat) (p : Port) : p ∈ inputs g n ↔ (⟨n, p⟩ : Sub) ∈ g.ports :=
-  mem_inputs g ⟨n, p⟩
+/-- creating a node keeps `Wf` -/
+private theorem wf_nodes (g : G) (nd : Node) (k : Nat) (hw : Wf g) :
+    Wf { g with nodes := g.nodes ++ [nd], ngroups := k } := by
+  obtain ⟨i2, i3, i4, i5, i6, i7, i8⟩ := hw
+  have hwk : ∀ n, n < g.nodes.length →
+      isWorker { g with nodes := g.nodes ++ [nd], ngroups := k } n = isWorker g n := by
+    intro n h; simp [isWorker, List.getElem?_append_left h]
+  have hfu : ∀ n, n < g.nodes.length →
+      isFuture { g with nodes := g.nodes ++ [nd], ngroups := k } n = isFuture g n := by
+    intro n h; simp [isFuture, List.getElem?_append_left h]
+  have hg : ∀ n, n < g.nodes.length →
+      gid? { g with nodes := g.nodes ++ [nd], ngroups := k } n = gid? g n := by
+    intro n h; simp [gid?, List.getElem?_append_left h]
+  refine ⟨i2, i3, ?_, i5, i6, ?_, ?_⟩
+  · intro e he e' he' ha ha' hgid
+    rw [hg _ (isWorker_lt _ _ (i7 e he).2), hg _ (isWorker_lt _ _ (i7 e' he').2)] at hgid
+    exact i4 e he e' he' ha ha' hgid
+  · intro e he
+    have h := i7 e he
+    refine ⟨?_, ?_⟩
+    · have := h.1
+      simp only [List.length_append, List.length_singleton]; omega
+    · rw [hwk _ (isWorker_lt _ _ h.2)]; exact h.2
+  · intro r hr
+    have h := i8 r hr
+    refine ⟨?_, ?_⟩
+    · rw [hfu _ (isFuture_lt _ _ h.1)]; exact h.1
+    · have := h.2
+      simp only [List.length_append, List.length_singleton]; omega
 
-private theorem filter_ne_self (l : List Sub) (s : Sub) (h : s ∉ l) :
-    l.filter (fun x => !decide (x = s)) = l := by
-  apply List.filter_eq_self.mpr
-  intro a ha; simp; intro hs; exact h (hs ▸ ha)
+/-! ### C11 — well-formedness after every call sequence -/
 
-/-- what the checks of `Subscription.__new__` establish -/
-private theorem subscription_none (g : G) (s : Sub) (h : subscription g s = none) :
-    s ∉ g.ports ∧
-    (∀ q ∈ g.ports, q.node = s.node → (inputs g s.node).any Port.isApply = s.port.isApply) ∧
-    (s.port.isApply = false → publishes g s.node = false) ∧ isFuture g s.node = false := by
-  unfold subscription at h
-  simp only at h
-  split at h
-  · cases h
-  · rename_i h1
-    split at h
-    · cases h
-    · rename_i h2
-      split at h
-      · cases h
-      · rename_i h3
-        split at h
-        · cases h
-        · rename_i h4
-          refine ⟨fun hm => h1 ((mem_inputs g s).mpr hm), ?_, ?_, by simpa using h4⟩
-          · intro q hq hqn
-            have hne : (inputs g s.node).isEmpty = false := by
-              have : q.port ∈ inputs g s.node := by
-                rw [← hqn]; exact (mem_inputs g q).mpr hq
-              cases hi : inputs g s.node with
-              | nil => rw [hi] at this; cases this
-              | cons _ _ => rfl
-            simp only [hne, Bool.not_false, Bool.true_and, bne_iff_ne, ne_eq, Decidable.not_not] at h2
-            exact h2.symm
-          · intro hp
-            simp only [hp, Bool.not_false, Bool.true_and, Bool.not_eq_true] at h3
-            exact h3
+/-- one call — legal or illegal, succeeding or raising, between workers or through placeholders — keeps `Wf` -/
+theorem C11_wf_step (g : G) (op : Op) (hw : Wf g) : Wf (step g op).1 := by
+  cases op with
+  | mkWorker st i o =>
+    simp only [step, mkWorker]; split
+    · exact hw
+    · exact wf_nodes g _ _ hw
+  | mkFuture i o =>
+    simp only [step, mkFuture]; split
+    · exact hw
+    · exact wf_nodes g _ g.ngroups hw
+  | fork n =>
+    simp only [step, fork]; split
+    · exact hw
+    · exact wf_nodes g _ g.ngroups hw
+  | subscribe s j p pi =>
+    simp only [step, subscribe]
+    split
+    · exact hw
+    · rename_i hlen
+      have hs : s < g.nodes.length := by omega
+      have hp : p < g.nodes.length := by omega
+      split
+      · rename_i hf; exact register_wf g s j p pi hw hf hp
+      · rename_i hf
+        have hwk : isWorker g s = true := by
+          rcases worker_or_future g s hs with h | h
+          · exact h
+          · exact absurd h hf
+        exact publish_wf g p pi ⟨s, .apply j⟩ hw hwk hp (fun h => by simp [Port.isApply] at h)
+  | train n tp ti lp li =>
+    simp only [step]
+    rcases train_cases g n tp ti lp li hw with ⟨e, h⟩ | ⟨L1, L2, h, _, _, hw2, _⟩
+    · rw [h]; exact hw
+    · rw [h]; exact hw2
+  | segment h t => exact hw
+  | validate h t => exact hw
 
-/-- a `Worker` publisher: `publishTo` is one non-recursive step -/
-private theorem publishTo_worker (fuel : Nat) (g : G) (p pi : Nat) (s : Sub) (hp : isFuture g p = false) :
-    publishTo (fuel + 1) g p pi s =
-      if trained g p then (g, .err .trainedPublishing)
-      else if p = s.node then (g, .err .self)
-      else (addEdge g ⟨p, pi, s⟩, .ok) := by
-  simp [publishTo, hp]
+theorem C11_wf_init : Wf init := by decide
 
-private theorem isFuture_of_isWorker (g : G) (n : Nat) (h : isWorker g n = true) : isFuture g n = false := by
-  unfold isWorker at h; unfold isFuture
-  split at h <;> simp_all
+/-- **C11_wf**: after any sequence of construction calls no node feeds itself, every worker is subscribed either
+for training or for applying, every group has at most one trained member, trained workers publish nothing,
+and the `_PORTS` registry is exactly the set of subscribed ports -/
+theorem C11_wf (ops : List Op) : Wf (run init ops) := by
+  suffices h : ∀ g, Wf g → Wf (run g ops) from h init C11_wf_init
+  induction ops with
+  | nil => intro g hw; exact hw
+  | cons op ops ih => intro g hw; exact ih _ (C11_wf_step g op hw)
 
 /-! ### C11 — atomicity -/
 
-/-- calls whose endpoints are all workers (no placeholder involved) -/
-def DirectOp (g : G) : Op → Bool
-  | .subscribe s _ p _ => isWorker g s && isWorker g p
-  | .train n tp _ lp _ => isWorker g n && isWorker g tp && isWorker g lp
-  | _ => true
-
-def isTrain : Op → Bool
-  | .train .. => true
-  | _ => false
-
-/-- full strength: every call that raises leaves the graph exactly as it was -/
-def C11_atomic_full : Prop := ∀ (g : G) (op : Op), (step g op).2.isErr = true → (step g op).1 = g
-
-/-- state reached by the D13 witness prefix `mkWorker(stateful), mkWorker` -/
-def d13State : G := run init [.mkWorker true 1 1, .mkWorker false 1 1]
-
-/-- D13: `w0.train(w1[0], w0[0])` — the label publish raises `Self subscription` after the train publish succeeded -/
-theorem C11_atomic_counterexample : ¬ C11_atomic_full := by
-  intro h
-  have := h d13State (.train 0 1 0 0 0) (by decide)
-  revert this
-  decide
-
-/-- failing calls routed through a placeholder are not atomic either: `w0[0].subscribe(f1[0])` after
-`f1[0].subscribe(w0[0])` raises `Self subscription` but `f1` keeps the subscription -/
-theorem C11_atomic_future_counterexample :
-    let g := run init [.mkWorker false 1 1, .mkFuture 1 1, .subscribe 1 0 0 0]
-    (step g (.subscribe 0 0 1 0)).2.isErr = true ∧ (step g (.subscribe 0 0 1 0)).1 ≠ g := by
-  decide
-
-private theorem publish_direct_atomic (g : G) (p pi : Nat) (s : Sub)
-    (hs : isFuture g s.node = false) (hp : isFuture g p = false)
-    (he : (publish g p pi s).2.isErr = true) : (publish g p pi s).1 = g := by
-  unfold publish at he ⊢
-  simp only [hs, Bool.false_eq_true, false_and, ↓reduceIte] at he ⊢
-  cases hsub : subscription g s with
-  | some e => simp
-  | none =>
-    have hnot := (subscription_none g s hsub).1
-    simp only [hsub] at he ⊢
-    have hp' : isFuture { g with ports := g.ports ++ [s] } p = false := hp
-    unfold fuelOf at he ⊢
-    rw [publishTo_worker _ _ _ _ _ hp'] at he ⊢
-    by_cases h1 : trained { g with ports := g.ports ++ [s] } p = true
-    · rw [if_pos h1]; simp [filter_ne_self _ _ hnot]
-    · by_cases h2 : p = s.node
-      · rw [if_neg h1, if_pos h2]; simp [filter_ne_self _ _ hnot]
-      · -- success branch: not an error
-        exfalso
-        rw [if_neg h1, if_neg h2] at he
-        simp only at he
-        split at he <;> simp [Res.isErr] at he
-
-/-- **C11_atomic_partial**: every failing call other than `train` whose endpoints are workers (create, fork,
-worker-to-worker subscribe, segment tracing, validation) leaves the state exactly as it was. -/
-theorem C11_atomic_partial (g : G) (op : Op) (hd : DirectOp g op = true) (ht : isTrain op = false)
-    (he : (step g op).2.isErr = true) : (step g op).1 = g := by
+/-- a call that raises leaves a well-formed state exactly as it was — every kind of call, every route -/
+theorem C11_atomic_step (g : G) (op : Op) (hw : Wf g) (he : (step g op).2.isErr = true) : (step g op).1 = g := by
   cases op with
   | mkWorker st i o =>
     simp only [step, mkWorker] at he ⊢
@@ -149,298 +128,146 @@ theorem C11_atomic_partial (g : G) (op : Op) (hd : DirectOp g op = true) (ht : i
     simp only [step, fork] at he ⊢
     split at he <;> simp_all [Res.isErr]
   | subscribe s j p pi =>
-    simp only [DirectOp, Bool.and_eq_true] at hd
-    have hs := isFuture_of_isWorker g s hd.1
-    have hp := isFuture_of_isWorker g p hd.2
     simp only [step, subscribe] at he ⊢
     split
     · rfl
     · rename_i hlen
-      simp only [hlen, ↓reduceIte, hs, Bool.false_eq_true] at he ⊢
-      exact publish_direct_atomic g p pi ⟨s, .apply j⟩ hs hp he
-  | train n tp ti lp li => simp [isTrain] at ht
+      simp only [hlen, ↓reduceIte] at he
+      have hs : s < g.nodes.length := by omega
+      have hp : p < g.nodes.length := by omega
+      split
+      · rename_i hf
+        simp only [hf, ↓reduceIte] at he
+        exact register_atomic g s j p pi hw hf hp he
+      · rename_i hf
+        simp only [hf] at he
+        have hwk : isWorker g s = true := by
+          rcases worker_or_future g s hs with h | h
+          · exact h
+          · exact absurd h hf
+        exact publish_atomic g p pi ⟨s, .apply j⟩ hw hwk hp he
+  | train n tp ti lp li =>
+    simp only [step] at he ⊢
+    rcases train_cases g n tp ti lp li hw with ⟨e, h⟩ | ⟨L1, L2, h, _⟩
+    · rw [h]
+    · rw [h] at he; simp [Res.isErr] at he
   | segment h t => rfl
   | validate h t => rfl
 
-/-! ### C11 — invariants -/
+/-- **C11_atomic**: after any sequence of construction calls, a call that raises leaves the graph exactly as it was -/
+theorem C11_atomic (ops : List Op) (op : Op) (he : (step (run init ops) op).2.isErr = true) :
+    (step (run init ops) op).1 = run init ops :=
+  C11_atomic_step _ op (C11_wf ops) he
 
-/-- the state after a successful worker-to-worker `publish` -/
-private def added (g : G) (p pi : Nat) (s : Sub) : G :=
-  { g with edges := g.edges ++ [⟨p, pi, s⟩], ports := g.ports ++ [s] }
+/-- non-vacuity: failing calls of every kind on a non-trivial graph (self subscription through a placeholder,
+trained publisher behind a placeholder, label stage of `train`, cycle of placeholders) -/
+example :
+    let ops := [Op.mkWorker true 1 1, .mkWorker false 1 1, .mkFuture 1 1, .mkFuture 1 1, .subscribe 2 0 1 0,
+                .subscribe 1 0 2 0, .train 0 1 0 0 0, .subscribe 3 0 2 0, .subscribe 2 0 3 0, .train 0 2 0 1 0,
+                .subscribe 2 0 0 0]
+    (step (run init (ops.take 5)) (ops.getD 5 (.fork 0))).2 = .err .self ∧
+    (step (run init (ops.take 6)) (ops.getD 6 (.fork 0))).2 = .err .trainedPublishing ∧
+    (step (run init (ops.take 8)) (ops.getD 8 (.fork 0))).2 = .err .self ∧
+    (run init ops).edges.length = 3 := by
+  decide
 
-/-- adding one subscription that passed every check keeps the invariants -/
-private theorem inv_add (g : G) (p pi : Nat) (s : Sub) (hi : Inv g)
-    (h1 : ∀ e ∈ g.edges, e.sub ≠ s)
-    (h2 : ∀ e ∈ g.edges, e.sub.node = s.node → e.sub.port.isApply = s.port.isApply)
-    (h3 : s.port.isApply = false → ∀ e ∈ g.edges, e.pub ≠ s.node)
-    (h4 : isWorker g s.node = true)
-    (h5 : ∀ e ∈ g.edges, e.sub.node = p → e.sub.port.isApply = true)
-    (h6 : p ≠ s.node) (h7 : p < g.nodes.length)
-    (h8 : s.port.isApply = false → ∀ e ∈ g.edges, e.sub.port.isApply = false →
-      gid? g e.sub.node = gid? g s.node → e.sub.node = s.node) :
-    Inv (added g p pi s) := by
-  obtain ⟨i1, i2, i3, i4, i5, i6, i7⟩ := hi
-  refine ⟨?_, ?_, ?_, ?_, ?_, ?_, ?_⟩
-  · intro e he e' he' hw hw' hsub
-    simp only [added, List.mem_append, List.mem_singleton] at he he'
-    rcases he with he | rfl <;> rcases he' with he' | rfl
-    · exact i1 e he e' he' hw hw' hsub
-    · exact absurd hsub (h1 e he)
-    · exact absurd hsub.symm (h1 e' he')
-    · rfl
-  · intro e he
-    simp only [added, List.mem_append, List.mem_singleton] at he
-    rcases he with he | rfl
-    · exact i2 e he
-    · exact h6
-  · intro e he e' he' hn
-    simp only [added, List.mem_append, List.mem_singleton] at he he'
-    rcases he with he | rfl <;> rcases he' with he' | rfl
-    · exact i3 e he e' he' hn
-    · exact h2 e he hn
-    · exact (h2 e' he' hn.symm).symm
-    · rfl
-  · intro e he e' he' ha ha' hg
-    simp only [added, List.mem_append, List.mem_singleton] at he he'
-    rcases he with he | rfl <;> rcases he' with he' | rfl
-    · exact i4 e he e' he' ha ha' hg
-    · exact h8 ha' e he ha hg
-    · exact (h8 ha e' he' ha' hg.symm).symm
-    · rfl
-  · intro e he e' he' ha
-    simp only [added, List.mem_append, List.mem_singleton] at he he'
-    rcases he with he | rfl <;> rcases he' with he' | rfl
-    · exact i5 e he e' he' ha
-    · intro hp
-      have := h5 e he hp.symm
-      simp [this] at ha
-    · exact h3 ha e' he'
-    · exact h6
-  · constructor
-    · intro q hq
-      simp only [added, List.mem_append, List.mem_singleton] at hq
-      rcases hq with hq | rfl
-      · obtain ⟨e, he, hs⟩ := i6.1 q hq
-        exact ⟨e, by simp [added, he], hs⟩
-      · exact ⟨⟨p, pi, q⟩, by simp [added], rfl⟩
-    · intro e he
-      simp only [added, List.mem_append, List.mem_singleton] at he
-      rcases he with he | rfl
-      · simp [added, i6.2 e he]
-      · simp [added]
-  · intro e he
-    simp only [added, List.mem_append, List.mem_singleton] at he
-    rcases he with he | rfl
-    · exact i7 e he
-    · exact ⟨h7, h4⟩
+/-! ### C11 — one publisher per input port (worker and placeholder routes, any order of the calls) -/
 
-private theorem isWorker_lt (g : G) (n : Nat) (h : isWorker g n = true) : n < g.nodes.length := by
-  unfold isWorker at h
-  cases hn : g.nodes[n]? with
-  | none => simp [hn] at h
-  | some _ => exact (List.getElem?_eq_some_iff.mp hn).1
+/-- the call does not give a placeholder input port a second publisher -/
+def SingleOp (g : G) : Op → Bool
+  | .subscribe s j _ _ => !(isFuture g s && g.regs.any (fun r => r.fut == s && r.idx == j))
+  | _ => true
 
-private theorem trained_false (g : G) (n : Nat) (h : trained g n = false) (q : Sub) (hq : q ∈ g.ports)
-    (hn : q.node = n) : q.port.isApply = true := by
-  unfold trained at h
-  have hm : q.port ∈ inputs g n := hn ▸ (mem_inputs g q).mpr hq
-  have := List.any_eq_false.mp h q.port hm
-  simpa using this
-
-/-- `any isApply` over the subscribed ports of a node decides the kind of every edge into it (I3 + I6) -/
-private theorem any_apply (g : G) (hi : Inv g) (e : Edge) (he : e ∈ g.edges) :
-    (inputs g e.sub.node).any Port.isApply = e.sub.port.isApply := by
-  obtain ⟨_, _, i3, _, _, i6, _⟩ := hi
-  have hin : e.sub.port ∈ inputs g e.sub.node := (mem_inputs g e.sub).mpr (i6.2 e he)
-  cases hb : e.sub.port.isApply with
-  | true => exact List.any_eq_true.mpr ⟨_, hin, hb⟩
-  | false =>
-    apply List.any_eq_false.mpr
-    intro q hq
-    obtain ⟨e', he', hs'⟩ := i6.1 ⟨e.sub.node, q⟩ ((mem_inputs' g _ _).mp hq)
-    have := i3 e he e' he' (by rw [hs'])
-    rw [hs'] at this
-    simp only at this
-    rw [← this, hb]; simp
-
-/-- outcome of `publish` between two workers on a state satisfying the invariants: either an error with the
-state untouched, or exactly one new subscription and every fact the checks established -/
-private theorem publish_direct (g : G) (p pi : Nat) (s : Sub) (hi : Inv g)
-    (hs : isWorker g s.node = true) (hp : isWorker g p = true) :
-    (∃ e, publish g p pi s = (g, .err e)) ∨
-    (publish g p pi s = (added g p pi s, .ok) ∧
-      (∀ e ∈ g.edges, e.sub ≠ s) ∧
-      (∀ e ∈ g.edges, e.sub.node = s.node → e.sub.port.isApply = s.port.isApply) ∧
-      (s.port.isApply = false → ∀ e ∈ g.edges, e.pub ≠ s.node) ∧
-      (∀ e ∈ g.edges, e.sub.node = p → e.sub.port.isApply = true) ∧ p ≠ s.node) := by
-  have hsf := isFuture_of_isWorker g _ hs
-  have hpf := isFuture_of_isWorker g _ hp
-  have i6 := hi.2.2.2.2.2.1
-  unfold publish
-  simp only [hsf, Bool.false_eq_true, false_and, ↓reduceIte]
-  cases hsub : subscription g s with
-  | some e => exact .inl ⟨e, rfl⟩
-  | none =>
-    obtain ⟨c1, c2, c3, _⟩ := subscription_none g s hsub
-    have hnoedge : ∀ e ∈ g.edges, e.sub ≠ s := fun e he h => c1 (h ▸ i6.2 e he)
-    have hp' : isFuture { g with ports := g.ports ++ [s] } p = false := hpf
-    simp only
-    unfold fuelOf
-    rw [publishTo_worker _ _ _ _ _ hp']
-    by_cases h1 : trained { g with ports := g.ports ++ [s] } p = true
-    · rw [if_pos h1]; left; exact ⟨.trainedPublishing, by simp [filter_ne_self _ _ c1]⟩
-    · by_cases h2 : p = s.node
-      · rw [if_neg h1, if_pos h2]; left; exact ⟨.self, by simp [filter_ne_self _ _ c1]⟩
-      · rw [if_neg h1, if_neg h2]; right
-        have hnotin : (⟨p, pi, s⟩ : Edge) ∉ g.edges := fun h => hnoedge _ h rfl
-        have hadd : addEdge { g with ports := g.ports ++ [s] } ⟨p, pi, s⟩ = added g p pi s := by
-          simp [addEdge, hnotin, added]
-        have hcnt : ((added g p pi s).edges.filter (·.sub = s)).length ≠ (g.edges.filter (·.sub = s)).length := by
-          simp [added, List.filter_append]
-        rw [hadd]
-        simp only [hcnt, ↓reduceIte, true_and]
-        refine ⟨hnoedge, ?_, ?_, ?_, h2⟩
-        · intro e he hn
-          have := c2 e.sub (i6.2 e he) hn
-          rw [← hn, any_apply g hi e he] at this
-          exact this
-        · intro ha e he hpub
-          have := c3 ha
-          unfold publishes at this
-          have := List.any_eq_false.mp this e he
-          simp [hpub] at this
-        · intro e he hn
-          have ht : trained g p = false := by
-            have h1' : trained { g with ports := g.ports ++ [s] } p = false := by simpa using h1
-            unfold trained inputs at h1' ⊢
-            simp only [List.filter_append, List.map_append, List.any_append, Bool.or_eq_false_iff] at h1'
-            exact h1'.1
-          exact trained_false g p ht e.sub (i6.2 e he) hn
-
-/-- precondition on the group for a train/label subscription (established by `Worker.train`'s fork check) -/
-private def TrainOK (g : G) (s : Sub) : Prop :=
-  s.port.isApply = false → ∀ e ∈ g.edges, e.sub.port.isApply = false →
-    gid? g e.sub.node = gid? g s.node → e.sub.node = s.node
-
-private theorem publish_direct_inv (g : G) (p pi : Nat) (s : Sub) (hi : Inv g)
-    (hs : isWorker g s.node = true) (hp : isWorker g p = true) (ht : TrainOK g s) :
-    Inv (publish g p pi s).1 := by
-  rcases publish_direct g p pi s hi hs hp with ⟨e, h⟩ | ⟨h, f1, f2, f3, f5, f6⟩
-  · rw [h]; exact hi
-  · rw [h]; exact inv_add g p pi s hi f1 f2 f3 hs f5 f6 (isWorker_lt g p hp) ht
-
-private theorem inv_nodes (g : G) (nd : Node) (k : Nat) (hi : Inv g) :
-    Inv { g with nodes := g.nodes ++ [nd], ngroups := k } := by
-  obtain ⟨i1, i2, i3, i4, i5, i6, i7⟩ := hi
-  have hw : ∀ n, n < g.nodes.length →
-      isWorker { g with nodes := g.nodes ++ [nd], ngroups := k } n = isWorker g n := by
-    intro n h; simp [isWorker, List.getElem?_append_left h]
-  have hg : ∀ n, n < g.nodes.length →
-      gid? { g with nodes := g.nodes ++ [nd], ngroups := k } n = gid? g n := by
-    intro n h; simp [gid?, List.getElem?_append_left h]
-  refine ⟨?_, i2, i3, ?_, i5, i6, ?_⟩
-  · intro e he e' he' h1 h2 hs
-    rw [hw _ (i7 e he).1] at h1
-    rw [hw _ (i7 e' he').1] at h2
-    exact i1 e he e' he' h1 h2 hs
-  · intro e he e' he' ha ha' hgid
-    rw [hg _ (isWorker_lt _ _ (i7 e he).2), hg _ (isWorker_lt _ _ (i7 e' he').2)] at hgid
-    exact i4 e he e' he' ha ha' hgid
-  · intro e he
-    have h := i7 e he
-    refine ⟨?_, ?_⟩
-    · have := h.1
-      simp only [List.length_append, List.length_singleton]; omega
-    · rw [hw _ (isWorker_lt _ _ h.2)]; exact h.2
-
-private theorem gid_of_worker (g : G) (n : Nat) (h : isWorker g n = true) : ∃ k, gid? g n = some k := by
-  unfold isWorker at h; unfold gid?
-  split at h <;> simp_all
-
-private theorem trained_true (g : G) (q : Sub) (hq : q ∈ g.ports) (ha : q.port.isApply = false) :
-    trained g q.node = true := by
-  unfold trained
-  exact List.any_eq_true.mpr ⟨q.port, (mem_inputs g q).mpr hq, by simp [ha]⟩
-
-private theorem train_inv (g : G) (n tp ti lp li : Nat) (hi : Inv g)
-    (hn : isWorker g n = true) (htp : isWorker g tp = true) (hlp : isWorker g lp = true) :
-    Inv (train g n tp ti lp li).1 := by
-  unfold train
-  split
-  · exact hi
-  · split
-    · exact hi
-    · split
-      · exact hi
-      · rename_i hfork
-        -- the fork check: no member of the group is the target of a train/label subscription
-        have hnone : ∀ e ∈ g.edges, e.sub.port.isApply = false → gid? g e.sub.node = gid? g n → False := by
-          intro e he ha hgid
-          obtain ⟨k, hk⟩ := gid_of_worker g n hn
-          apply hfork
-          apply List.any_eq_true.mpr
-          refine ⟨e.sub.node, ?_, trained_true g e.sub (hi.2.2.2.2.2.1.2 e he) ha⟩
-          unfold group
-          simp only [hk, List.mem_filter, List.mem_range, decide_eq_true_eq]
-          exact ⟨isWorker_lt _ _ (hi.2.2.2.2.2.2 e he).2, by rw [hgid, hk]⟩
-        rcases publish_direct g tp ti ⟨n, .train⟩ hi hn htp with ⟨e, h⟩ | ⟨h, f1, f2, f3, f5, f6⟩
-        · rw [h]; exact hi
-        · rw [h]
-          have hi1 : Inv (added g tp ti ⟨n, .train⟩) :=
-            inv_add g tp ti ⟨n, .train⟩ hi f1 f2 f3 hn f5 f6 (isWorker_lt g tp htp)
-              (fun _ e he ha hg => (hnone e he ha hg).elim)
-          refine publish_direct_inv (added g tp ti ⟨n, .train⟩) lp li ⟨n, .label⟩ hi1 hn hlp ?_
-          intro _ e he ha hg
-          simp only [added, List.mem_append, List.mem_singleton] at he
-          rcases he with he | rfl
-          · exact (hnone e he ha hg).elim
-          · rfl
-
-/-- one call whose endpoints are workers — legal or illegal, succeeding or raising — keeps every invariant -/
-theorem C11_invariant_step (g : G) (op : Op) (hi : Inv g) (hd : DirectOp g op = true) : Inv (step g op).1 := by
+/-- one call (any kind, any route, failing or not) that registers no second publisher on a placeholder port keeps
+"the holders of a subscription form one chain of registrations" -/
+theorem C11_chain_step (g : G) (op : Op) (hw : Wf g) (hs : SingleReg g) (hc : Chain g)
+    (ho : SingleOp g op = true) : SingleReg (step g op).1 ∧ Chain (step g op).1 := by
   cases op with
   | mkWorker st i o =>
     simp only [step, mkWorker]; split
-    · exact hi
-    · exact inv_nodes g _ _ hi
+    · exact ⟨hs, hc⟩
+    · exact ⟨hs, chain_congr g _ rfl rfl hc⟩
   | mkFuture i o =>
     simp only [step, mkFuture]; split
-    · exact hi
-    · exact inv_nodes g _ g.ngroups hi
+    · exact ⟨hs, hc⟩
+    · exact ⟨hs, chain_congr g _ rfl rfl hc⟩
   | fork n =>
     simp only [step, fork]; split
-    · exact hi
-    · exact inv_nodes g _ g.ngroups hi
+    · exact ⟨hs, hc⟩
+    · exact ⟨hs, chain_congr g _ rfl rfl hc⟩
   | subscribe s j p pi =>
-    simp only [DirectOp, Bool.and_eq_true] at hd
     simp only [step, subscribe]
     split
-    · exact hi
-    · simp only [isFuture_of_isWorker g s hd.1, Bool.false_eq_true, ↓reduceIte]
-      exact publish_direct_inv g p pi ⟨s, .apply j⟩ hi hd.1 hd.2 (fun h => by simp [Port.isApply] at h)
+    · exact ⟨hs, hc⟩
+    · rename_i hlen
+      have hsl : s < g.nodes.length := by omega
+      have hp : p < g.nodes.length := by omega
+      split
+      · rename_i hf
+        have hno : ∀ r ∈ g.regs, ¬(r.fut = s ∧ r.idx = j) := by
+          intro r hr ⟨h1, h2⟩
+          simp only [SingleOp, hf, Bool.true_and, Bool.not_eq_true', List.any_eq_false, Bool.and_eq_true,
+            beq_iff_eq, not_and] at ho
+          exact ho r hr h1 h2
+        rcases register_cases g s j p pi hw hf hp with ⟨e, h⟩ | ⟨L, h, facts⟩
+        · rw [h]; exact ⟨hs, hc⟩
+        · rw [h]; exact chain_register g s j p pi L hs hc hno facts
+      · rename_i hf
+        have hwk : isWorker g s = true := by
+          rcases worker_or_future g s hsl with h | h
+          · exact h
+          · exact absurd h hf
+        rcases publish_cases g p pi ⟨s, .apply j⟩ hw hwk hp with ⟨e, h⟩ | ⟨L, h, _, facts⟩
+        · rw [h]; exact ⟨hs, hc⟩
+        · rw [h]
+          obtain ⟨_, fresh, _, _, _, f5, f6⟩ := facts
+          exact ⟨hs, chain_publish g _ ⟨s, .apply j⟩ L p pi (fuelOf g) hs hc rfl rfl fresh
+            (fun e he => ⟨(f5 e he).1, f6 e he⟩)⟩
   | train n tp ti lp li =>
-    simp only [DirectOp, Bool.and_eq_true] at hd
-    exact train_inv g n tp ti lp li hi hd.1.1 hd.1.2 hd.2
-  | segment h t => exact hi
-  | validate h t => exact hi
+    simp only [step]
+    rcases train_cases g n tp ti lp li hw with ⟨e, h⟩ | ⟨L1, L2, h, facts1, facts2, _, _⟩
+    · rw [h]; exact ⟨hs, hc⟩
+    · rw [h]
+      obtain ⟨_, fresh1, _, _, _, a5, a6⟩ := facts1
+      obtain ⟨_, fresh2, _, _, _, b5, b6⟩ := facts2
+      have hc1 : Chain { g with edges := g.edges ++ L1, ports := g.ports ++ [⟨n, .train⟩] } :=
+        chain_publish g _ ⟨n, .train⟩ L1 tp ti (fuelOf g) hs hc rfl rfl fresh1 (fun e he => ⟨(a5 e he).1, a6 e he⟩)
+      exact ⟨hs, chain_publish { g with edges := g.edges ++ L1, ports := g.ports ++ [⟨n, .train⟩] } _ ⟨n, .label⟩ L2
+        lp li _ hs hc1 rfl rfl fresh2 (fun e he => ⟨(b5 e he).1, b6 e he⟩)⟩
+  | segment h t => exact ⟨hs, hc⟩
+  | validate h t => exact ⟨hs, hc⟩
+
+/-- no call of the sequence registers a second publisher on a placeholder port (decidable along the run) -/
+def AllSingle : G → List Op → Prop
+  | _, [] => True
+  | g, op :: ops => SingleOp g op = true ∧ AllSingle (step g op).1 ops
+
+instance : (g : G) → (ops : List Op) → Decidable (AllSingle g ops)
+  | _, [] => isTrue trivial
+  | g, op :: ops =>
+    have := instDecidableAllSingle (step g op).1 ops
+    by unfold AllSingle; infer_instance
+
+private theorem single_run (g : G) (ops : List Op) (hw : Wf g) (hs : SingleReg g) (hc : Chain g)
+    (ha : AllSingle g ops) : Wf (run g ops) ∧ SingleReg (run g ops) ∧ Chain (run g ops) := by
+  induction ops generalizing g with
+  | nil => exact ⟨hw, hs, hc⟩
+  | cons op ops ih =>
+    obtain ⟨s1, c1⟩ := C11_chain_step g op hw hs hc ha.1
+    exact ih _ (C11_wf_step g op hw) s1 c1 ha.2
+
+/-- **C11_future_sound**: calls routed through any number of placeholders, in any order, connect nothing but the
+chain of registrations: whenever two output ports hold the same subscription, one of them is upstream of the other
+through the registered publishers (a worker port holding it is upstream of every placeholder port holding it) -/
+theorem C11_future_sound (ops : List Op) (ha : AllSingle init ops) : Chain (run init ops) :=
+  (single_run init ops C11_wf_init (by intro r hr; cases hr) (by intro e he; cases he) ha).2.2
 
 theorem C11_invariant_init : Inv init := by decide
 
-/-- every call of the sequence has worker endpoints only (decidable along the run) -/
-def AllDirect : G → List Op → Prop
-  | _, [] => True
-  | g, op :: ops => DirectOp g op = true ∧ AllDirect (step g op).1 ops
-
-instance : (g : G) → (ops : List Op) → Decidable (AllDirect g ops)
-  | _, [] => isTrue trivial
-  | g, op :: ops =>
-    have := instDecidableAllDirect (step g op).1 ops
-    by unfold AllDirect; infer_instance
-
-/-- full strength: the invariants hold after every sequence of construction calls -/
+/-- full strength: all the invariants, (I1) included, hold after every sequence of construction calls -/
 def C11_invariant_full : Prop := ∀ ops : List Op, Inv (run init ops)
 
-/-- D12: two publishers registered on one placeholder port, then a subscriber: two publishers on one input port -/
+/-- C11-F1: two publishers registered on one placeholder port, then a subscriber: two publishers on one input port -/
 theorem C11_invariant_counterexample : ¬ C11_invariant_full := by
   intro h
   have := h [.mkWorker false 1 1, .mkWorker false 1 1, .mkFuture 1 1, .mkWorker false 1 1,
@@ -454,21 +281,233 @@ theorem C11_I1_counterexample :
                     .subscribe 2 0 0 0, .subscribe 2 0 1 0, .subscribe 3 0 2 0]) := by
   unfold I1; decide
 
-/-- **C11_invariant_partial**: by induction over the call sequence — any length, legal and illegal calls, failed
-calls and retries in any interleaving — the invariants hold after every prefix, provided no call goes
-through a placeholder. -/
-theorem C11_invariant_partial (g : G) (ops : List Op) (hi : Inv g) (hd : AllDirect g ops) : Inv (run g ops) := by
-  induction ops generalizing g with
-  | nil => exact hi
-  | cons op ops ih => exact ih (step g op).1 (C11_invariant_step g op hi hd.1) hd.2
+/-- **C11_invariant_partial**: all the invariants, one publisher per input port included, hold after every call
+sequence — any length, worker routes and placeholder routes, any number of placeholders connected in any order,
+legal and illegal calls, failed calls and retries in any interleaving — in which no placeholder input port is
+given a second publisher -/
+theorem C11_invariant_partial (ops : List Op) (ha : AllSingle init ops) : Inv (run init ops) := by
+  obtain ⟨hw, _, hc⟩ := single_run init ops C11_wf_init (by intro r hr; cases hr) (by intro e he; cases he) ha
+  exact ⟨i1_of_chain hw.2.2.2.2.2.2 hc, hw⟩
 
-/-- non-vacuity: a sequence with legal and illegal direct calls (trained publisher, fork collision, retry,
-failing train at the label stage) satisfies the hypothesis and ends in a non-trivial graph -/
+/-- non-vacuity: legal and illegal worker-to-worker calls (trained publisher, fork collision, retry, failing train
+at the label stage) satisfy the hypothesis and end in a non-trivial graph -/
 example :
     let ops := [Op.mkWorker true 1 1, .mkWorker false 1 2, .fork 0, .mkFuture 1 1, .subscribe 0 0 1 0,
                 .train 0 1 0 1 0, .train 2 1 1 0 0, .train 2 1 1 1 0, .subscribe 1 0 2 0, .train 0 1 0 1 0,
                 .segment 1 none]
-    AllDirect init ops ∧ (run init ops).edges.length = 3 := by
+    AllSingle init ops ∧ (run init ops).edges.length = 3 := by
+  decide
+
+/-- non-vacuity: a chain of placeholders wired downstream-first, upstream-last, with failing calls in between -/
+example :
+    let ops := [Op.mkWorker false 1 1, .mkFuture 1 1, .mkFuture 1 1, .mkWorker false 1 1, .mkWorker false 1 1,
+                .subscribe 3 0 2 0, .subscribe 4 0 2 0, .subscribe 2 0 1 0, .subscribe 1 0 2 0, .subscribe 1 0 0 0,
+                .subscribe 0 0 2 0]
+    AllSingle init ops ∧ (run init ops).edges.length = 6 ∧
+    (resolve (run init ops)).map (fun e => (e.pub, e.sub.node)) = [(0, 3), (0, 4)] := by
+  decide
+
+/-! ### C11 — completeness of the connections made through placeholders, any order of the calls -/
+
+private theorem closed_nodes (g : G) (nd : Node) (k : Nat) (hw : Wf g) (hc : Closed g) :
+    Closed { g with nodes := g.nodes ++ [nd], ngroups := k } := by
+  intro e he
+  refine holdsUp_lift g ({ g with nodes := g.nodes ++ [nd], ngroups := k } : G) rfl (fun _ h => h) ?_ (hc e he)
+  intro x hx
+  simp [isFuture, List.getElem?_append_left (hw.2.2.2.2.2.1 x hx).1]
+
+/-- one call keeps "whatever an output port holds is held by every publisher registered on it, all the way up" -/
+theorem C11_closed_step (g : G) (op : Op) (hw : Wf g) (hc : Closed g) : Closed (step g op).1 := by
+  cases op with
+  | mkWorker st i o =>
+    simp only [step, mkWorker]; split
+    · exact hc
+    · exact closed_nodes g _ _ hw hc
+  | mkFuture i o =>
+    simp only [step, mkFuture]; split
+    · exact hc
+    · exact closed_nodes g _ g.ngroups hw hc
+  | fork n =>
+    simp only [step, fork]; split
+    · exact hc
+    · exact closed_nodes g _ g.ngroups hw hc
+  | subscribe s j p pi =>
+    simp only [step, subscribe]
+    split
+    · exact hc
+    · rename_i hlen
+      have hsl : s < g.nodes.length := by omega
+      have hp : p < g.nodes.length := by omega
+      split
+      · rename_i hf
+        rcases register_cases g s j p pi hw hf hp with ⟨e, h⟩ | ⟨L, h, facts⟩
+        · rw [h]; exact hc
+        · rw [h]; exact closed_register g s j p pi L hc h facts
+      · rename_i hf
+        have hwk : isWorker g s = true := by
+          rcases worker_or_future g s hsl with h | h
+          · exact h
+          · exact absurd h hf
+        rcases publish_cases g p pi ⟨s, .apply j⟩ hw hwk hp with ⟨e, h⟩ | ⟨L, h, hpt, facts⟩
+        · rw [h]; exact hc
+        · rw [h]
+          obtain ⟨_, _, _, _, _, f5, f6⟩ := facts
+          exact closed_publish g p pi ⟨s, .apply j⟩ L hc hpt (fun e he => ⟨(f5 e he).1, f6 e he⟩)
+  | train n tp ti lp li =>
+    simp only [step]
+    rcases train_cases g n tp ti lp li hw with ⟨e, h⟩ | ⟨L1, L2, h, facts1, facts2, _, hpt1, hpt2⟩
+    · rw [h]; exact hc
+    · rw [h]
+      obtain ⟨_, _, _, _, _, a5, a6⟩ := facts1
+      obtain ⟨_, _, _, _, _, b5, b6⟩ := facts2
+      have hc1 := closed_publish g tp ti ⟨n, .train⟩ L1 hc hpt1 (fun e he => ⟨(a5 e he).1, a6 e he⟩)
+      exact closed_publish _ lp li ⟨n, .label⟩ L2 hc1 hpt2 (fun e he => ⟨(b5 e he).1, b6 e he⟩)
+  | segment h t => exact hc
+  | validate h t => exact hc
+
+/-- **C11_future_complete**: after any sequence of construction calls — any number of placeholders, connected in
+any order, several publishers per placeholder port included — a subscription held by an output port is held by
+every output port upstream of it through the registered publishers; in particular every worker registered
+(transitively) on a placeholder is connected to every subscriber of that placeholder, exactly as if it had been
+wired directly -/
+theorem C11_future_complete (ops : List Op) (e : Edge) (he : e ∈ (run init ops).edges) (x : Nat × Nat)
+    (hu : Up (run init ops) (e.pub, e.out) x) : (⟨x.1, x.2, e.sub⟩ : Edge) ∈ (run init ops).edges := by
+  have hcl : ∀ (ops : List Op) (g : G), Wf g → Closed g → Closed (run g ops) := by
+    intro ops
+    induction ops with
+    | nil => intro g _ hc; exact hc
+    | cons op ops ih => intro g hw hc; exact ih _ (C11_wf_step g op hw) (C11_closed_step g op hw hc)
+  have hc := hcl ops init C11_wf_init (by intro e he; cases he)
+  exact (holdsUp_up (C11_wf ops).2.2.2.2.2.2 hu (hc e he)).edge
+
+/-! ### C11 — cycles are rejected when a segment is traced -/
+
+/-- **C11_cycle**: when `Segment(head)` traces its tail successfully, no walk over (non-trained) subscriptions
+starting at the head ever returns to the head or passes a node twice: no cycle is reachable from the head.
+(Contrapositive: with a reachable cycle the tracing raises.) -/
+theorem C11_cycle (g : G) (h t : Nat) (hs : segment g h none = .node t) (ys : List Nat) (hy : Trail g h ys) :
+    h ∉ ys ∧ ys.Nodup := by
+  have hsimple : Simple g h [h] := by
+    unfold segment at hs
+    split at hs
+    · cases hs
+    · split at hs
+      · cases hs
+      · simp only at hs
+        split at hs
+        · rename_i l hscan; exact scan_simple _ g h [h] _ hscan
+        · cases hs
+        · cases hs
+  obtain ⟨h1, h2⟩ := simple_trail ys h [h] hsimple hy
+  exact ⟨fun hm => h1 h hm (by simp), h2⟩
+
+/-- the same for a validated auto-traced segment -/
+theorem C11_cycle_validate (g : G) (h t : Nat) (hv : validate g h none = .node t) (ys : List Nat)
+    (hy : Trail g h ys) : h ∉ ys ∧ ys.Nodup := by
+  unfold validate at hv
+  split at hv
+  · rename_i tl hseg
+    exact C11_cycle g h tl hseg ys hy
+  · rename_i r _
+    cases r <;> simp_all
+
+/-- non-vacuity: a two-node cycle is refused, a chain with a trained side branch is traced -/
+example :
+    segment (run init [.mkWorker false 1 1, .mkWorker false 1 1, .subscribe 1 0 0 0, .subscribe 0 0 1 0]) 0 none
+      = .err .cyclic ∧
+    segment (run init [.mkWorker false 1 1, .mkWorker false 1 1, .mkWorker false 1 1, .mkWorker true 1 1,
+      .subscribe 1 0 0 0, .subscribe 2 0 1 0, .train 3 1 0 0 0]) 0 none = .node 2 ∧
+    Trail (run init [.mkWorker false 1 1, .mkWorker false 1 1, .mkWorker false 1 1, .mkWorker true 1 1,
+      .subscribe 1 0 0 0, .subscribe 2 0 1 0, .train 3 1 0 0 0]) 0 [1, 2] := by
+  decide
+
+/-! ### C11 — placeholders in a validated segment -/
+
+private theorem visit_sub (g : G) (tail : Nat) : ∀ (fuel pivot : Nat) (seen : List Nat) (x : Nat),
+    x ∈ seen → x ∈ visit fuel g tail pivot seen := by
+  intro fuel
+  induction fuel with
+  | zero => intro pivot seen x h; exact h
+  | succ k ih =>
+    intro pivot seen x h
+    unfold visit
+    simp only
+    have key : ∀ (ns : List Nat) (acc : List Nat), x ∈ acc →
+        x ∈ ns.foldl (fun seen n =>
+          if memNode g n seen then seen
+          else if eqNode g pivot tail && !(isWorker g n && trained g n) then seen
+          else visit k g tail n seen) acc := by
+      intro ns
+      induction ns with
+      | nil => intro acc h; exact h
+      | cons n ns ihn =>
+        intro acc h
+        simp only [List.foldl_cons]
+        apply ihn
+        split
+        · exact h
+        · split
+          · exact h
+          · exact ih n acc x h
+    exact key _ _ (List.mem_append_left _ h)
+
+private theorem visit_pivot (g : G) (tail fuel pivot : Nat) (seen : List Nat) :
+    pivot ∈ visit (fuel + 1) g tail pivot seen := by
+  unfold visit
+  simp only
+  have key : ∀ (ns : List Nat) (acc : List Nat), pivot ∈ acc →
+      pivot ∈ ns.foldl (fun seen n =>
+        if memNode g n seen then seen
+        else if eqNode g pivot tail && !(isWorker g n && trained g n) then seen
+        else visit fuel g tail n seen) acc := by
+    intro ns
+    induction ns with
+    | nil => intro acc h; exact h
+    | cons n ns ihn =>
+      intro acc h
+      simp only [List.foldl_cons]
+      apply ihn
+      split
+      · exact h
+      · split
+        · exact h
+        · exact visit_sub g tail fuel n acc pivot h
+  exact key _ _ (by simp)
+
+/-- full strength: a segment accepted by the validator has no placeholder head (unless it is the tail itself) -/
+def C11_placeholder_full : Prop :=
+  ∀ (g : G) (h : Nat) (t : Option Nat) (tl : Nat), validate g h t = .node tl → isFuture g h = true → tl = h
+
+/-- C11-F2: an unconnected placeholder head compares equal to an unconnected tail worker and is skipped -/
+theorem C11_placeholder_counterexample : ¬ C11_placeholder_full := by
+  intro h
+  have := h (run init [.mkFuture 1 1, .mkWorker false 1 1]) 0 (some 1) 1 (by decide) (by decide)
+  revert this
+  decide
+
+/-- **C11_placeholder_partial**: the validator accepts a placeholder head only when it compares equal to the tail
+(`Node.__eq__`: same number of output ports holding equal subscriptions) -/
+theorem C11_placeholder_partial (g : G) (h : Nat) (t : Option Nat) (tl : Nat)
+    (hv : validate g h t = .node tl) (hf : isFuture g h = true) : eqNode g h tl = true := by
+  unfold validate at hv
+  split at hv
+  · rename_i tl' _
+    simp only at hv
+    split at hv
+    · cases hv
+    · rename_i hany
+      cases hv
+      have hmem := visit_pivot g tl (g.nodes.length * g.nodes.length) h []
+      have hany' : ∀ x ∈ visit (g.nodes.length * g.nodes.length + 1) g tl h [],
+          isFuture g x = true → eqNode g x tl = true := by simpa using hany
+      exact hany' h hmem hf
+  · rename_i r _
+    cases r <;> simp_all
+
+/-- non-vacuity: a connected placeholder head is refused, a worker-only segment is accepted -/
+example :
+    validate (run init [.mkFuture 1 1, .mkWorker false 1 1, .subscribe 1 0 0 0]) 0 none = .err .futures ∧
+    validate (run init [.mkWorker false 1 1, .mkWorker false 1 1, .subscribe 1 0 0 0]) 0 none = .node 1 := by
   decide
 
 end ForML.Graph
